@@ -28,6 +28,8 @@ pub enum Viol {
     BadFilter,
     Malformed,
     Unexpected,
+    /// an acknowledgement nobody is waiting for
+    UnexpectedAck,
 }
 
 impl Viol {
@@ -58,6 +60,9 @@ pub enum Init {
     HandlerErr,
     PeerDisc,
     PeerDiscExpiry,
+    /// peer DISCONNECT whose handler closes the sink itself (close() / close_with_reason) before acking
+    PeerDiscAppCloses,
+    PeerDiscAppClosesWith,
 }
 
 impl Init {
@@ -65,12 +70,12 @@ impl Init {
         matches!(self, Init::V(_) | Init::HandlerErr | Init::ProtoErr | Init::PeerDiscExpiry)
     }
     fn app_supplies_packet(self) -> bool {
-        matches!(self, Init::Close | Init::CloseReason | Init::ProtoDisc | Init::ProtoDiscWith)
+        matches!(self, Init::Close | Init::CloseReason | Init::ProtoDisc | Init::ProtoDiscWith | Init::PeerDiscAppCloses | Init::PeerDiscAppClosesWith)
     }
 }
 
 pub fn alphabet(role: Role) -> Vec<Init> {
-    let mut v = vec![Init::Close, Init::CloseReason, Init::CloseNoReason, Init::ForceClose, Init::HandlerErr, Init::PeerDisc, Init::PeerDiscExpiry];
+    let mut v = vec![Init::Close, Init::CloseReason, Init::CloseNoReason, Init::ForceClose, Init::HandlerErr, Init::PeerDisc, Init::PeerDiscExpiry, Init::PeerDiscAppCloses, Init::PeerDiscAppClosesWith, Init::V(Viol::UnexpectedAck)];
     if role.is_server() {
         v.extend([Init::ProtoDisc, Init::ProtoDiscWith, Init::ProtoErr]);
         for k in [Viol::TooLarge, Viol::RecvMax, Viol::Qos, Viol::Retain, Viol::SubId, Viol::AliasUnknown, Viol::AliasExceeds, Viol::BadFilter, Viol::Malformed] {
@@ -171,6 +176,10 @@ pub async fn run_case(case: &Case) -> Outc {
             Init::PeerDisc => {
                 c.peer.send(&R::Disconnect { code: Some(0), props: None });
             }
+            Init::PeerDiscAppCloses | Init::PeerDiscAppClosesWith => {
+                app.proto_plans.borrow_mut().push_back(ProtoPlan { gated: false, answer: ProtoAnswer::CloseSinkThenAck((*init == Init::PeerDiscAppClosesWith).then_some(0x8B)) });
+                c.peer.send(&R::Disconnect { code: Some(0), props: None });
+            }
             Init::PeerDiscExpiry => {
                 c.peer.send(&R::Disconnect { code: Some(0), props: Some(vec![Prop::U32(0x11, 30)]) });
             }
@@ -206,6 +215,9 @@ pub async fn run_case(case: &Case) -> Outc {
                 }
                 Viol::BadFilter => {
                     c.peer.send(&R::Subscribe { pid: 330 + i as u16, props: vec![], filters: vec![("a/#/b".into(), 0)] });
+                }
+                Viol::UnexpectedAck => {
+                    c.peer.send(&R::PubAck { pid: 77, code: Some(0), props: None });
                 }
                 Viol::Malformed => c.peer.send_bytes(&[0x00, 0x00], "reserved packet type 0"),
                 Viol::Unexpected => {
@@ -257,7 +269,7 @@ pub async fn run_case(case: &Case) -> Outc {
     }
     // O3: decidable when the peer's DISCONNECT arrived at a quiescent endpoint and was delivered
     for (i, init) in case.seq.iter().enumerate() {
-        if *init != Init::PeerDisc {
+        if !matches!(init, Init::PeerDisc | Init::PeerDiscAppCloses | Init::PeerDiscAppClosesWith) {
             continue;
         }
         let settled_before = i == 0 || case.settle & (1 << (i - 1)) != 0;
